@@ -93,6 +93,12 @@ _RANGE_SET_RE: Final = re.compile(
 )
 
 
+def _range_pos(digits: str) -> int:
+    # int() refuses over-long digit strings: such a position is beyond any file.
+    digits = digits.lstrip("0")
+    return int(digits or "0") if len(digits) <= 20 else 10**20
+
+
 class FileResponse(StreamResponse):
     """A response object can be used to send files."""
 
@@ -349,9 +355,10 @@ class FileResponse(StreamResponse):
             specs = [spec.strip().partition("-") for spec in rng_hdr[6:].split(",")]
             process_range = not any(
                 (
-                    int(first) < file_size and (not last or int(first) <= int(last))
+                    _range_pos(first) < file_size
+                    and (not last or _range_pos(first) <= _range_pos(last))
                     if first
-                    else int(last) > 0
+                    else _range_pos(last) > 0
                 )
                 for first, _, last in specs
             )
